@@ -255,8 +255,8 @@ def check(spec, ctx):
 
 # ------------------------------------------------------------------ generators
 @st.composite
-def topo(draw):
-    nc = draw(st.integers(1, 3))
+def topo(draw, max_comps=3, chains=(0, 0, 1, 1, 2, 3, 4)):
+    nc = draw(st.integers(1, max_comps))
     comps = []
     for i in range(nc):
         comps.append({
@@ -272,7 +272,7 @@ def topo(draw):
         if not sources or draw(st.integers(0, 7)) == 0:
             continue  # unconnected
         node = draw(st.sampled_from(sources))
-        for _ in range(draw(st.sampled_from([0, 0, 1, 1, 2, 3, 4]))):
+        for _ in range(draw(st.sampled_from(list(chains)))):
             aid = f"a{len(adapters)}"
             adapters[aid] = draw(st.sampled_from(["scale", "scale", "lin", "nb", "dfix", "dpull", "dpush"]))
             edges.append([node, ["a", aid]])
@@ -325,5 +325,5 @@ def enum_small(tier):
 def parts():
     return [
         Part("small_enum", check, enumerate=enum_small, exhaustive=True),
-        Part("topologies", check, strategy=topo(), budget={"quick": 2500, "thorough": 120000}),
+        Part("topologies", check, strategy=topo(), strategy_thorough=topo(max_comps=4, chains=(0, 1, 2, 3, 4, 5, 6)), budget={"quick": 2500, "thorough": 120000}),
     ]
